@@ -74,7 +74,10 @@ Connect(x, I) ==
            d    == [atyp |-> AtypName(atyp), host |-> host, port |-> port]
            dest == [k |-> "dest", atyp |-> d.atyp, host |-> d.host, port |-> d.port]
            open(ok) == [k |-> "open", atyp |-> d.atyp, host |-> d.host, port |-> d.port, ok |-> ok]
-       IN IF I.eager /\ ~I.connok            \* finish_start: OpenConnection failed
+       IN IF atyp = 3 /\ \E j \in 1..Len(host) : host[j] >= 128
+          \* host_bytes.decode("ascii") fails: socks_err(..., SOCKS5_REP_HOST_UNREACHABLE); the message is consumed
+          THEN SocksErr([x EXCEPT !.buf = rest], 4)
+          ELSE IF I.eager /\ ~I.connok            \* finish_start: OpenConnection failed
           THEN [x EXCEPT !.st = "done", !.buf = rest,
                          !.out = @ \o <<dest, open(FALSE),
                                         Send(<<5, 4, 0, 1, 0, 0, 0, 0, 0, 0>>), Close>>]
